@@ -181,6 +181,27 @@ def F11():
             return 'hand neither over nor continuing after the muck'
 
 
+def F14_duplicate_discard():
+    """C08/C10: a discard naming the same card twice passes verification and fails midway."""
+    from pokerkit import Automation as A, FixedLimitDeuceToSevenLowballTripleDraw as G
+    s = G.create_state((A.ANTE_POSTING, A.BET_COLLECTION, A.BLIND_OR_STRADDLE_POSTING, A.CARD_BURNING,
+                        A.HOLE_DEALING, A.BOARD_DEALING), True, 0, (1, 2), 2, 4, 200, 3)
+    while s.actor_index is not None:
+        s.check_or_call()
+    i = s.stander_pat_or_discarder_index
+    c = s.hole_cards[i][0]
+    before = (list(s.hole_cards[i]), list(s.standing_pat_or_discarding_statuses))
+    if not s.can_stand_pat_or_discard([c, c]):
+        return None
+    try:
+        s.stand_pat_or_discard([c, c])
+    except ValueError:
+        after = (list(s.hole_cards[i]), list(s.standing_pat_or_discarding_statuses))
+        if after != before:
+            return f'can_stand_pat_or_discard([{c!r}, {c!r}]) True; the call raised ValueError and left hole {after[0]} (was {before[0]})'
+    return None
+
+
 DEMOS = {k: v for k, v in globals().items() if k.startswith('F') and callable(v) and k[1:2].isdigit()}
 
 if __name__ == '__main__':
